@@ -5,7 +5,7 @@
    before every dereference of the holder and a copy owns a clone.  A property-preserving
    re-sequencing of a member breaks part 1 (and says which member) but not this file. *)
 From Common Require Import Prelude.
-From C09 Require Import Model Spec Micro FactsSem.
+From C09 Require Import Model Spec Env Micro MicroProofs FactsSem.
 From C09.gen Require Import Facts.
 Local Open Scope N_scope.
 
@@ -88,3 +88,18 @@ Print Assumptions source_any_copy_clones.
 Theorem source_any_copy_assign_via_copy : gen_any AMCopyAssign = [TTempCopy; TMoveFromTemp] /\ gen_holder = HUnique.
 Proof. exact FactsSem.sem_any_copy_assign. Qed.
 Print Assumptions source_any_copy_assign_via_copy.
+
+Theorem source_getenv_is_model : forall atoi atof k str i,
+  env_sem atoi atof (gen_env k) k str i = Some (m_getenv atoi atof k str i).
+Proof. exact FactsSem.sem_env. Qed.
+Print Assumptions source_getenv_is_model.
+
+(* a payload without operator== is routed (by the trait, as evaluated by the compiler) to the
+   overload that returns false: such Anys never compare equal and comparing them cannot crash *)
+Theorem source_any_noeq_payload_compares_false :
+  (tf_eq_noeq gen_traits = false /\ tf_impl_noeq_false gen_traits = true /\ tf_same_dispatch gen_traits = true /\
+   tf_eq_int gen_traits = true /\ tf_eq_string gen_traits = true /\ tf_eq_payload gen_traits = true /\
+   tf_impl_eq_shape gen_traits = true) /\
+  (forall h o, h_tag h = 4 -> is_same h o = false).
+Proof. split; [exact FactsSem.sem_traits | exact MicroProofs.link_noeq]. Qed.
+Print Assumptions source_any_noeq_payload_compares_false.
